@@ -135,14 +135,8 @@ def gen_cases(tier, seed):
             prog.append((op, opd))
         spacing = [rng.choice([(" ", " "), ("", ""), ("  ", " "), (" ", "")]) for _ in range(3)]
         mode = rng.choice(["c", "c", "script", "script-noeol"])
-        if mode != "c":
-            # The script path re-tokenizes and re-renders every line before list splitting; an
-            # operator written without blanks around it (`a||b`, `';'&&b`) is mangled there.  That
-            # defect is observed and recorded by C16 (same meaning across entry points); here script
-            # programs always have blanks around the operators and no backslash decoys.
-            spacing = [rng.choice([(" ", " "), ("  ", " "), (" ", "  ")]) for _ in range(3)]
-            prog = [(op, (o[0], o[1], o[2], tuple(d for d in o[3] if "\\" not in d)) if o[0] == "s" else o)
-                    for op, o in prog]
+        # (script lines used to be re-rendered before list splitting, which mangled `a||b` and backslash
+        # decoys; since the C16 repair the script entry gets the same spacings and decoys as -c)
         cases.append({"prog": prog, "mode": mode, "spacing": spacing, "class": "random"})
     return cases, n_exh
 
